@@ -6,7 +6,10 @@ prop, change = sys.argv[1], sys.argv[2]
 wt = f"/tmp/rw-mut-{os.getpid()}"
 subprocess.run(["git", "-C", "/repo", "worktree", "add", "--detach", "-q", wt, "HEAD"], check=True)
 try:
-    if change.startswith("sed:"):
+    if change.startswith("sed@@"):
+        _, expr, f = change.split("@@", 2)
+        subprocess.run(["sed", "-i", expr, os.path.join(wt, f)], check=True)
+    elif change.startswith("sed:"):
         _, expr, f = change.split(":", 2)
         subprocess.run(["sed", "-i", expr, os.path.join(wt, f)], check=True)
     elif change == "revert:HEAD" or change.startswith("revert:"):
